@@ -303,6 +303,10 @@ def run(tier):
             if not rep.startswith('ok') or not rep.endswith(want_tail):
                 chk.fail('obname:stale-after-change', {'steps': steps, 'encoder': enc, 'current_identity': [o, c, n]},
                          f'encoded {out.hex()[:80]} decodes as {rep[:120]!r}; the object is now ({o}, {c}, {n!r})')
+    # numbers of other types than int / float (numpy scalars, Fraction, Decimal) given to the numeric attributes: never
+    # cut to fit an integer code; what is accepted decodes to the same number
+    from harness.filegen import ATTRS
+    convert.run_numberlike(chk, model, bres, rng('C06', 'number-like'), 800 if tier == 'quick' else 8000, ATTRS)
     chk.exhaustive = False
     return finish(chk, bres, THEOREMS,
                   partial_note='float64->float32 rounding of a Python float given to FSINGL and str() of non-str '
